@@ -275,7 +275,7 @@ fn scenario(cfg: &Cfg, track: bool) -> Out {
                     let accepted_since_restart = ps.restarted_at.map(|r| *at > r).unwrap_or(true);
                     if now - at <= 15 * MIN && accepted_since_restart && !in_table_by_addr {
                         problems.push((
-                            "responsive-peer-missing".into(),
+                            format!("responsive-peer-missing#{p}"),
                             format!("minute {minute}: peer {p} answered the observer {} s ago and is alive but is not in its routing table", (now - at) / SEC),
                         ));
                     }
@@ -295,7 +295,7 @@ fn scenario(cfg: &Cfg, track: bool) -> Out {
                     let old = peer_id(p, ps.gen.saturating_sub(1));
                     if !table.iter().any(|(i, a)| *a == ps.addr && (*i != old || ps.gen == 0)) {
                         problems.push((
-                            "restarted-peer-not-relearned".into(),
+                            format!("restarted-peer-not-relearned#{p}"),
                             format!("minute {minute}: peer {p} restarted (or joined) {} min ago under a new id which is not in the observer's table", (now - r) / MIN),
                         ));
                     }
@@ -347,7 +347,15 @@ fn record(c: &Cfg, o: &Out, out: &mut Partial) {
     }
     let mut seen = std::collections::BTreeSet::new();
     for (k, d) in &o.problems {
-        let key = format!("{k}/{}/{}{}{}", if c.public { "public" } else { "private" }, if kinds.is_empty() { "steady".to_string() } else { kinds.join("+") }, if c.late.is_some() { "+late-joiner" } else { "" }, if c.observer_first { "+observer-starts-first" } else { "" });
+        // findings about one peer carry its index after '#'
+        let (k, about) = match k.split_once('#') {
+            Some((k, p)) => (k.to_string(), p.parse::<usize>().ok()),
+            None => (k.clone(), None),
+        };
+        // The restarted first node that is never relearned (public plan) is one history whatever
+        // else happens to the other peers in the same run: the finding is keyed by that history.
+        let first_node_restart = c.public && about == Some(0) && c.devs.iter().any(|d| matches!(d.act, Act::Restart(0))) && (k == "responsive-peer-missing" || k == "restarted-peer-not-relearned");
+        let key = if first_node_restart { format!("{k}/public/restart-first-node") } else { format!("{k}/{}/{}{}{}", if c.public { "public" } else { "private" }, if kinds.is_empty() { "steady".to_string() } else { kinds.join("+") }, if c.late.is_some() { "+late-joiner" } else { "" }, if c.observer_first { "+observer-starts-first" } else { "" }) };
         if seen.insert(key.clone()) {
             out.violation(
                 key,
